@@ -149,11 +149,11 @@ pub mod file_log_writer {
     //@   ens[FileLogWriter::reopen_outputfile.post] r == sh_reopen_result() && sh_reopened()
     //@ fn src/writers/file_log_writer.rs impl FileLogWriter / fn rotate
     //@   ret r
-    //@   props C08
+    //@   props C08,C01,C18
     //@   ens[FileLogWriter::rotate.post] r == sh_rotate_result() && sh_rotated()
     //@ fn src/writers/file_log_writer.rs impl FileLogWriter / fn plain_write
     //@   ret r
-    //@   props C15
+    //@   props C15,C01
     //@   req[FileLogWriter::plain_write.pre.perm] forall|b: Seq<u8>| #[trigger] sh_plain_ok(b) <==> b == buffer@
     //@   ens[FileLogWriter::plain_write.post] r == plain_write_result(buffer@)
     //@   canary
@@ -162,7 +162,7 @@ pub mod file_log_writer {
     impl FileLogWriter {
     //@ fn src/writers/file_log_writer.rs impl LogWriter for FileLogWriter / fn write
     //@   ret r
-    //@   props C13
+    //@   props C13,C01,C02
     //@   req[FileLogWriter::write.pre.perm] forall|x: &Record| #[trigger] sh_write_ok(x) <==> (x == record && level_num(record_level(record)) <= filter_num(self.ceiling()))
     //@   props C20
     //@   req[FileLogWriter::write.pre.same_now] forall|o: int| #[trigger] now_ok(o) <==> o == old(now).origin()
@@ -178,11 +178,11 @@ pub mod file_log_writer {
     //@   ens[FileLogWriter::max_log_level.post] r == self.ceiling()
     //@ fn src/writers/file_log_writer.rs impl LogWriter for FileLogWriter / fn flush
     //@   ret r
-    //@   props C04
+    //@   props C04,C15
     //@   ens[FileLogWriter::flush.post] r == sh_flush_result() && sh_flushed()
     //@ fn src/writers/file_log_writer.rs impl LogWriter for FileLogWriter / fn shutdown
     //@   fallback src/writers/log_writer.rs trait LogWriter / fn shutdown
-    //@   props C04
+    //@   props C04,C15
     //@   ens[FileLogWriter::shutdown.post] sh_shut()
     //@ fn src/writers/file_log_writer.rs impl LogWriter for FileLogWriter / fn reopen_output
     //@   fallback src/writers/log_writer.rs trait LogWriter / fn reopen_output
@@ -193,7 +193,7 @@ pub mod file_log_writer {
     //@   fallback src/writers/log_writer.rs trait LogWriter / fn rotate
     //@   ret r
     //@   rename rotate_as_log_writer
-    //@   props C08
+    //@   props C08,C01,C18
     //@   ens[LogWriter_for_FileLogWriter::rotate.post] r == sh_rotate_result() && sh_rotated()
     // C04: dropping the writer shuts it down (flushes)
     //@ fn src/writers/file_log_writer.rs impl Drop for FileLogWriter / fn drop
